@@ -26,7 +26,9 @@ RULE = ("Hypothesis draws a revision history (1-5 revisions; each defines/overri
         "Non-trivial = >=2 revisions with an overridden number, or a compressed object, or multi-range /Index, or a "
         "hybrid section, or a damage case where the body-scan fallback was taken; distinct by case encoding.")
 ASSUMPTIONS = ["vlib/xrefwrite.py writes conformant cross-reference sections (free entries only for never-defined numbers)",
-               "no object is deleted by an update; generation 0 for objects in object streams"]
+               "no object is deleted by an update; generation 0 for objects in object streams",
+               "damage cases: stream data that spells `endstream` only where the table is readable and single offsets are "
+               "wrong (without any usable cross-reference the body scan ends stream data at the first `endstream` on purpose)"]
 
 BUFS = [7, 16, 64, 4096]
 
